@@ -121,4 +121,84 @@ theorem legacy_file_store_authenticates :
 example : callback ⟨some 5, true, true, true, true, some [97], [116]⟩ Session.fresh = (302, ⟨true, [97], [116]⟩) := by
   decide
 
+/-! ## The state store over time -/
+
+theorem find_filter_other (st : StateStore) (s s' : Bytes) (h : s' ≠ s) :
+    (st.filter (fun e => e.state ≠ s')).find? (fun e => e.state == s) = st.find? (fun e => e.state == s) := by
+  induction st with
+  | nil => rfl
+  | cons a t ih =>
+    by_cases ha : a.state = s'
+    · have h1 : (a.state == s) = false := by rw [ha]; simpa using h
+      rw [List.filter_cons_of_neg (by simp [ha]), List.find?_cons_of_neg (by simp [h1])]
+      exact ih
+    · rw [List.filter_cons_of_pos (by simp [ha])]
+      by_cases hs : (a.state == s) = true
+      · rw [List.find?_cons_of_pos (by simpa using hs), List.find?_cons_of_pos (by simpa using hs)]
+      · rw [List.find?_cons_of_neg (by simpa using hs), List.find?_cons_of_neg (by simpa using hs)]
+        exact ih
+
+theorem any_filter_self (st : StateStore) (s : Bytes) (q : Entry → Bool) :
+    (st.filter (fun e => e.state ≠ s)).any (fun e => e.state == s && q e) = false := by
+  induction st with
+  | nil => rfl
+  | cons a t ih =>
+    by_cases ha : a.state = s
+    · rw [List.filter_cons_of_neg (by simp [ha])]; exact ih
+    · rw [List.filter_cons_of_pos (by simp [ha]), List.any_cons, ih]
+      have : (a.state == s) = false := by simpa using ha
+      simp [this]
+
+/-- **Callbacks never renew a state.** Whatever callbacks arrive, with whatever outcome, the expiry
+    of every state value stays what it was. -/
+theorem callback_keeps_expiry (st : StateStore) (now : Nat) (s s' : Bytes) :
+    expiryOf (storeStep st (.callback now s)) s' = expiryOf st s' := rfl
+
+/-- over any history that does not issue `s` again, the expiry of `s` does not move -/
+theorem expiry_stable (st : StateStore) (s : Bytes) (es : List StoreEv)
+    (h : ∀ e ∈ es, ∀ now, e ≠ .issue now s) : expiryOf (storeRun st es) s = expiryOf st s := by
+  induction es generalizing st with
+  | nil => rfl
+  | cons e es ih =>
+    have hrest : ∀ e' ∈ es, ∀ now, e' ≠ .issue now s := fun e' he now => h e' (List.mem_cons_of_mem _ he) now
+    simp only [storeRun]
+    rw [ih _ hrest]
+    cases e with
+    | callback now s' => rfl
+    | issue now s' =>
+      have hne : s' ≠ s := by
+        intro e'; subst e'
+        exact h (.issue now s') (List.mem_cons_self) now rfl
+      have hne' : (s' == s) = false := by simpa using hne
+      simp only [storeStep, expiryOf]
+      rw [List.find?_cons_of_neg (by simp [hne']), find_filter_other st s s' hne]
+
+/-- **A state is honoured for exactly two minutes from its issuance**: it is known at time `t`
+    right after being issued at `t0` iff `t < t0 + 120`. -/
+theorem issued_known_two_minutes (st : StateStore) (t0 t : Nat) (s : Bytes) :
+    known (storeStep st (.issue t0 s)) t s = decide (t < t0 + 120) := by
+  have hl : stateLifetime = 120 := state_lifetime
+  simp only [storeStep, known, List.any_cons, beq_self_eq_true, Bool.true_and, hl]
+  rw [any_filter_self st s (fun e => decide (t < e.expires))]
+  simp
+
+/-- a state that was never issued is not known, at any time -/
+theorem never_issued_unknown (now : Nat) (s : Bytes) (es : List StoreEv)
+    (h : ∀ e ∈ es, ∀ t, e ≠ .issue t s) : known (storeRun [] es) now s = false := by
+  have hexp := expiry_stable [] s es h
+  simp only [expiryOf, List.find?_nil, Option.map_none] at hexp
+  have hfind : (storeRun [] es).find? (fun e => e.state == s) = none := by
+    cases hf : (storeRun [] es).find? (fun e => e.state == s) with
+    | none => rfl
+    | some x => rw [hf] at hexp; simp at hexp
+  simp only [known, List.any_eq_false]
+  intro e he
+  have := List.find?_eq_none.mp hfind e he
+  simp only [Bool.not_eq_true] at this
+  simp [this]
+
+/-- non-vacuity -/
+example : known (storeRun [] [.issue 1000 [7], .callback 1050 [7], .callback 1100 [9]]) 1119 [7] = true ∧
+    known (storeRun [] [.issue 1000 [7], .callback 1050 [7]]) 1120 [7] = false := by decide
+
 end Rdpgw.C13
